@@ -139,6 +139,9 @@ def run(index, tier="quick", seed=0) -> Result:
         else:
             res.ok("FRAME-1", k, sample={"site": k, "uses": [s[0] for s in sites]})
     from ..parallel import report as _copy1
+    from ..frame3 import check as _frame3
+    for cn_ in ("Polygon", "ConvexPolygon"):
+        _frame3(res, index, cn_, ("centroid", "inertia_tensor", "planar_moments_inertia", "polar_moment_inertia", "area", "signed_area", "perimeter"))
     _copy1(res, index, lambda f: f['cls'] in ('Polygon', 'ConvexPolygon') and f['top'] in ('signed_area', 'area', 'perimeter', 'centroid', 'planar_moments_inertia', 'inertia_tensor', '_reorder_verts') or f['func'] in ('_align_points_by_normal', 'translate_inertia_tensor', 'rotate_order2_tensor'))
     # ---------------------------------------------------------------- FRAME-0 the alignment helper applies the forward rotation
     pmod = index.module("coxeter.shapes.polygon")
